@@ -309,11 +309,20 @@ def r5(cx, rule):
         (m.one(ARC_TASK_IMPL + r"error$"), "error", {"ctxok": False}),
         (m.one(r"^acts::scheduler::context::Context::emit_error$"), "emit_error", {"tp": (), "cp": (1,)}),
     ]
+    # entries that work on a task which has already been announced in its entry state (a client
+    # action on an open act, the timeout tick): a further emission in that same state is a duplicate
+    entries.append((m.one(r"^%s::run_hooks_timeout$" % TASK), "tick", {"announced": True}))
+    entries[1] = (entries[1][0], "update", {"announced": True})
     dups = {}
     runs = 0
     for f, label, kw in entries:
+        kw = dict(kw)
+        announced = kw.pop("announced", False)
         for s0 in T.STATES:
-            viol = eng.run(f, s0, Emit2Mon(), **kw)
+            mon0 = Emit2Mon()
+            if announced and s0 not in ("Running", "Pending", "None"):
+                mon0.init = s0
+            viol = eng.run(f, s0, mon0, **kw)
             runs += 1
             for payload, path in viol:
                 s, q, b = payload
